@@ -10,6 +10,7 @@ from .expr import *  # noqa
 from .stmt import *  # noqa
 from . import lib as _lib
 from . import absobj as _abs
+from . import libtorch as _lt
 from .expr import to_int as _e_to_int
 
 REPO = os.environ.get("KAPPADATA_REPO", "/repo")
@@ -73,6 +74,7 @@ class Engine(ExprMixin, StmtMixin):
         self.depth = 0
         self.join_mode = 0
         _abs.install_spec_builtins(self)
+        _lt.install_spec_builtins(self)
 
     # ------------------------------------------------------------------ modules / classes
     def module(self, relpath):
@@ -257,9 +259,16 @@ class Engine(ExprMixin, StmtMixin):
                 if isinstance(v, VRef) and isinstance(st.heap[v.oid], VSeq):
                     v = st.heap[v.oid]
                 if cur.concrete is not None:
-                    st.heap[ref.oid] = VSeq.of(cur.concrete + [v], typeof(v) if not cur.concrete else cur.etype)
+                    new = VSeq.of(cur.concrete + [v], typeof(v) if not cur.concrete else cur.etype)
                 else:
-                    st.heap[ref.oid] = VSeq(cur.len + 1, lambda i, cur=cur, v=v: ite(i == cur.len, v, cur.elem(i)), cur.etype)
+                    new = VSeq(cur.len + 1, lambda i, cur=cur, v=v: ite(i == cur.len, v, cur.elem(i)), cur.etype)
+                if isinstance(v, VSeq):
+                    oldflat = getattr(cur, "flat", None)
+                    if oldflat is None and cur.concrete is not None and not cur.concrete:
+                        oldflat = z3.IntVal(0)
+                    if oldflat is not None:
+                        new.flat = oldflat + v.len
+                st.heap[ref.oid] = new
                 return [(st, NONEV)]
             if attr == "extend":
                 st.heap[ref.oid] = eng.seq_concat(cur, eng.as_seq(args[0], st))
@@ -268,7 +277,7 @@ class Engine(ExprMixin, StmtMixin):
                 return eng.seq_method(cur, "index")(args, kwargs, st, eng)
             if attr == "copy":
                 return [(st, st.alloc(cur))]
-            raise Unsupported(f"list.{attr}")
+            return eng.seq_method(cur, attr)(args, kwargs, st, eng)
         return fn
 
     def seq_method(self, sq, attr):
@@ -283,6 +292,16 @@ class Engine(ExprMixin, StmtMixin):
                 return [(st, VInt(r))]
             if attr == "tolist":
                 return [(st, eng.fresh_list(sq, st))]
+            if attr == "repeat_interleave":
+                r = _e_to_int(eng.deref(kwargs.get("repeats", args[0] if args else None), st))
+                eng.safety(st, "repeat_interleave:positive", r > 0, None, "repeats must be positive in the model", kind="model")
+                return [(st, VSeq(sq.len * r, lambda i: sq.elem(i / r), sq.etype))]
+            if attr == "item":
+                return [(st, sq.elem(z3.IntVal(0)))]
+            if attr in ("long", "clone", "numpy", "int", "contiguous"):
+                return [(st, sq)]
+            if attr == "squeeze":
+                return [(st, sq)]
             raise Unsupported(f"seq.{attr}")
         return fn
 
@@ -355,9 +374,7 @@ class Engine(ExprMixin, StmtMixin):
         if self.depth > 0:
             self.inlined.add(key)
         saved = (self.cur_fi, self.cur_contract, self.cur_func, self.defs, self.loop_env)
-        callee_contract = self.contracts.get(key, {}) if self.depth > 0 or closure is not None else self.cur_contract
-        if closure is not None:
-            callee_contract = {}
+        callee_contract = self.contracts.get(key, {}) if closure is None else {}
         st2 = st if self.spec_depth else st
         caller_locals = st2.locals
         new_locals = dict(closure) if closure is not None else {}
@@ -378,7 +395,7 @@ class Engine(ExprMixin, StmtMixin):
             self.depth -= 1
             self.cur_fi, self.cur_contract, self.cur_func, self.defs, self.loop_env = saved
         for s, oc in results:
-            s.locals = caller_locals
+            s.locals = dict(caller_locals)
             if oc[0] == RET:
                 out.append((s, oc[1]))
             elif oc[0] == NEXT:
@@ -522,6 +539,7 @@ class Engine(ExprMixin, StmtMixin):
         self.defs = dict(c.get("defs", {}))
         self.loop_env = []
         self.depth = 0
+        self.no_merge = not c.get("merge", True)
         n_before = len(self.obligations)
         src = ast.get_source_segment(fi.module.src, fi.node) or ""
         self.functions_under_contract.append({
